@@ -1,0 +1,7 @@
+//go:build !verif
+// +build !verif
+
+package vm
+
+// simStep is a no-op unless the package is built with the "verif" tag.
+func (vm *VM) simStep(byte) {}
